@@ -20,10 +20,19 @@ class Clock:
         self.loop = loop
         self.offset = 0.0
         self.reads = 0
+        self.dst = None  # (virtual instant, seconds): from that instant on LOCAL time is shifted (daylight-saving switch)
 
     def seconds(self) -> float:
         self.reads += 1
         return self.loop.time() + self.offset
+
+    def local_seconds(self) -> float:
+        """Naive local time, as datetime.now() without a time zone gives it: UTC + zone offset, and the zone offset
+        changes at a daylight-saving switch while UTC (utcnow(), now(timezone.utc), time.time()) runs on."""
+        t = self.seconds()
+        if self.dst is not None and self.loop.time() >= self.dst[0]:
+            t += self.dst[1]
+        return t
 
 
 class _AnyDateTime(type):
@@ -44,10 +53,10 @@ def _datetime_class(clock: Clock):
 
         @classmethod
         def now(cls, tz=None):
-            base = EPOCH + _real_datetime.timedelta(seconds=clock.seconds())
             if tz is not None:
+                base = EPOCH + _real_datetime.timedelta(seconds=clock.seconds())
                 return base.replace(tzinfo=_real_datetime.timezone.utc).astimezone(tz)
-            return base
+            return EPOCH + _real_datetime.timedelta(seconds=clock.local_seconds())
 
     return VDateTime
 
